@@ -42,6 +42,7 @@ class PP:
         self.snapshot = snapshot or {}      # (b, s) -> j : the capture of (b, s) snapshots name of branch j
         self.gates = gates                  # async: max pending count per gate
         self.gate_steps = None              # async: steps whose gates are symbolic (None = all)
+        self.mutate_names = False           # captures re-assign `let mut` names (C12)
         self.extra_instant = extra_instant or set()   # {(b, s)}: a second, instant logged action in that step
         assert not (self.is_try and carrier == "raw")
 
@@ -95,10 +96,14 @@ class PP:
         if j is None:
             return ""
         nm = self.name(j)
+        mut = ""
+        if self.lets.get(j) == "let mut" and self.mutate_names:
+            # `let mut name`: the binding must really be mutable (re-assign the value it already holds)
+            mut = "let keep = %s; %s = keep; " % (nm, nm) if self.carrier == "raw" else ("let keep = %s.take(); %s = keep; " % (nm, nm) if self.carrier == "opt" else "")
         if self.carrier == "raw":
-            return "eva(%d, %s); " % (CAP(b, s), nm)
+            return "%seva(%d, %s); " % (mut, CAP(b, s), nm)
         if self.carrier == "opt":
-            return "eva(%d, match %s.as_ref() { Some(x) => *x, None => 0 }); " % (CAP(b, s), nm)
+            return "%seva(%d, match %s.as_ref() { Some(x) => *x, None => 0 }); " % (mut, CAP(b, s), nm)
         return "eva(%d, match %s.as_ref() { Ok(x) => *x, Err(x) => *x }); " % (CAP(b, s), nm)
 
     def branch(self, b):
